@@ -171,6 +171,11 @@ func eq(this, that []types.Type) bool {
 		if !types.AssignableTo(types.Default(t), types.Default(that[i])) {
 			return false
 		}
+		// Every type is assignable to interface{}: a function registered for an interface type must not
+		// capture the lookups for concrete types (its results would have the interface type).
+		if types.IsInterface(that[i]) && !types.Identical(types.Default(t), types.Default(that[i])) {
+			return false
+		}
 	}
 	return true
 }
